@@ -198,10 +198,10 @@ def units():
     # ---- swap2 between flavours (C13): ordered pairs, same 8-bit size type in the quick tier, mixed 8/16-bit in the thorough tier
     FL3 = {'small': (1, 'SmallVectorBase_E_A_%s', 'VectorImpl_E_A_%s_t_Dyn'), 'std': (2, 'StdVectorBase_E_A_%s', 'VectorImpl_E_A_%s_f_Dyn'),
            'static': (3, 'StaticVectorBase_E_%s', 'VectorImpl_E_X_%s_t_Exc')}
-    for elem in ('ElemNR', 'ElemTR'):
+    for elem in ('ElemNR', 'ElemTR', 'ElemTC'):
         et = ELEM_TAG[elem]
         for s1, s2, tier in (('u8', 'u8', 'quick'), ('u8', 'u16', 'thorough'), ('u16', 'u8', 'thorough')):
-            if elem == 'ElemTR' and s1 != s2:
+            if elem != 'ElemNR' and s1 != s2:
                 continue
             for f1, (n1, b1, v1) in FL3.items():
                 for f2, (n2, b2, v2) in FL3.items():
